@@ -368,11 +368,22 @@ def dense_of(pat, mat, accumulate=True):
     return D
 
 
+SLACK = {}        # op kind -> max observed |residual| / tolerance (must stay <= 0.1: >= 10x slack)
+CUR = ["?"]
+
+
+def note_ratio(ratio):
+    if ratio == ratio and ratio != math.inf:
+        SLACK[CUR[0]] = max(SLACK.get(CUR[0], 0.0), ratio)
+
+
 def close(a, b, scale, tol=ORACLE_TOL):
     if a != a or b != b:
         return (a != a) == (b != b)
     if abs(a) == math.inf or abs(b) == math.inf:
         return a == b
+    if scale > 0 and tol > 0:
+        note_ratio(abs(a - b) / (tol * max(scale, 1e-300)))
     return abs(a - b) <= tol * max(scale, 1e-300)
 
 
@@ -386,6 +397,7 @@ def finite(v):
 
 def oracle_diff_op(kind, line, out):
     """independent (dense, Python) evaluation of what the routine is documented to compute; None or a message"""
+    CUR[0] = kind.split(":")[0]
     w = line.split()
     op = w[0]
     if out == "bad-op":
@@ -786,7 +798,7 @@ def gen_oracle_lines(ctx, n):
     return out
 
 
-QCQP_STATS = {"all": 0, "rho>30 (feasibility not checked)": 0, "rho>30 and infeasible result": 0}
+QCQP_STATS = {"all": 0, "rho>30 (feasibility not checked)": 0, "rho>30 and infeasible result": 0, "max_gx_over_tol": 0.0}
 
 
 def solve_small(M, v, n):
@@ -812,6 +824,7 @@ def matvec(M, v, n):
 
 
 def oracle_only_op(kind, line, out):
+    CUR[0] = kind
     w = line.split()
     if out == "bad-op":
         return "valid oracle op rejected by the harness"
@@ -835,6 +848,7 @@ def oracle_only_op(kind, line, out):
                 for j in range(3):
                     av = math.fsum(A[i * 3 + k] * V[k * 3 + j] for k in range(3))
                     EIG_DEV[0] = max(EIG_DEV[0], abs(av - V[i * 3 + j] * lam[j]) / sc)
+                    note_ratio(abs(av - V[i * 3 + j] * lam[j]) / (EIG_VEC_TOL * sc))
                     if abs(av - V[i * 3 + j] * lam[j]) > EIG_VEC_TOL * sc:
                         return "mju_eig3: A V != V diag(eigval)"
             for j in range(3):
@@ -866,6 +880,8 @@ def oracle_only_op(kind, line, out):
             sc = max(abs(v) for v in g + [1.0]) * max(1.0, max(abs(v) for v in H))
             tol = 1e-6 * sc      # mingrad = 1e-16 on the squared free gradient norm => |grad_free| <= 1e-8
             for k in range(n):
+                if lo[k] < x[k] < hi[k]:
+                    note_ratio(abs(grad[k]) / tol)
                 if x[k] < lo[k] or x[k] > hi[k]:
                     return "mju_boxQP: result outside the box"
                 if lo[k] < x[k] < hi[k] and abs(grad[k]) > tol:
@@ -908,14 +924,23 @@ def oracle_only_op(kind, line, out):
             res = [grad[k] + la * x[k] / d[k] ** 2 for k in range(n)]
             if max(abs(v) for v in res) > 1e-9 * sc:
                 return "mju_QCQP: stationarity violated"
+            # exit criteria of the Newton loop: val < 1e-10 or step delta = -val/deriv < 1e-10, i.e. the returned point
+            # can violate the constraint by up to 1e-10 * max(1, |deriv|), deriv = -2 v'(A+la)^-1 v (scaled coordinates);
+            # the tolerance below is that bound with 10x slack
+            vs = [x[k] / d[k] for k in range(n)]
+            y = solve_small([[As[i_][j] + (la if i_ == j else 0.0) for j in range(n)] for i_ in range(n)], vs, n)
+            deriv = 2.0 * abs(math.fsum(vs[k] * y[k] for k in range(n))) if y is not None else math.inf
+            ftol = 1e-9 * max(1.0, deriv)
+            QCQP_STATS["max_gx_over_tol"] = max(QCQP_STATS.get("max_gx_over_tol", 0.0), gx / ftol if rho <= 30 else 0.0)
             if rho > 30:
                 QCQP_STATS["rho>30 (feasibility not checked)"] += 1
-                if gx > 1e-9:
+                if gx > ftol:
                     QCQP_STATS["rho>30 and infeasible result"] += 1
                 return None
-            if gx > 1e-9:
+            note_ratio(gx / ftol)
+            if gx > ftol:
                 return "mju_QCQP: result violates the constraint"
-            if act and abs(gx) > 1e-9:
+            if act and abs(gx) > ftol:
                 return "mju_QCQP: active flag set but constraint not tight"
             if not act and rho > 1.0 + 1e-6:
                 return "mju_QCQP: reported unconstrained although the unconstrained minimiser is infeasible"
@@ -1019,6 +1044,8 @@ def run(ctx):
                     ctx.oracle_failure("c23:" + why.split(":")[0].split(" ")[0] + ":" + kind, why + " [%s build]" % variant,
                                        {"line": l[:6000], "impl_output": o[:3000], "variant": variant,
                                         "replay": "echo '<line>' | <c23_linalg harness, %s build>" % variant})
+        ctx.extra["oracle_max_residual_over_tolerance_" + variant] = {k: float("%.3g" % v) for k, v in sorted(SLACK.items())}
+        SLACK.clear()
         ctx.extra["qcqp_scope_" + variant] = dict(QCQP_STATS)
         ctx.extra["eig3_max_rel_residual_" + variant] = EIG_DEV[0]
         for k_ in QCQP_STATS:
